@@ -1,13 +1,17 @@
 """Bounded stand-in / replay vehicle for C06 on the REAL elfi.store.NpyStore / NpyArray (labelled bounded).
 
+OPS: append (store[len] = batch), overwrite (batch 0) / overwrite_last (last batch; on an empty store: store[len+1] = batch must raise
+IndexError), del_last (first checks that deleting index len and, with >= 2 batches, batch 0 raise IndexError), clear, flush,
+reopen (close + NpyStore(path)), pickle (dumps, close, loads).  reopen/pickle/clear are skipped while the store was never appended to
+(the property is about initialised stores).
 (a) functional: every operation sequence of length <= L over OPS, for the (dtype, row shape) configurations, batch size 2, compared with
-    an in-memory list after every operation (len, `in`, every batch, IndexError where the list-of-batches spec demands one) and
-    numpy.load(file) after every flush / close / pickle.
+    an in-memory list after every operation (len, `in`, every batch) and numpy.load(file) after every flush / close / pickle.
 (b) crash: for every sequence of length <= LK that contains a completed flush-like operation before its last operation, a child
-    process (os.fork) re-runs the sequence and os._exit()s before the first and after EVERY low-level file call (seek / write /
-    truncate / flush / close on NpyArray.fs, including those numpy.memmap makes) of the LAST operation (kill points in earlier
-    operations are the last-operation kill points of the prefix sequences, which are all enumerated); afterwards numpy.load(file)
-    must succeed and equal one of the logical contents between the last completed flush and the end of the interrupted operation.
+    process (os.fork) re-runs the sequence and os._exit()s before the first, after EVERY low-level file call (seek / write /
+    truncate / flush / close on NpyArray.fs, including those numpy.memmap makes) of the LAST operation, and right after it (kill
+    points in earlier operations are the last-operation kill points of the prefix sequences, which are all enumerated); afterwards
+    numpy.load(file) must succeed and equal one of the logical contents between the last completed flush and the end of the
+    interrupted operation.  "before call k" leaves the same file as "after call k-1", so the quick tier only runs the latter.
 """
 import io
 import itertools
@@ -19,7 +23,7 @@ import numpy as np
 
 from pyvc import native
 
-OPS = ('append', 'overwrite', 'del_last', 'del_mid', 'clear', 'flush', 'reopen', 'pickle')
+OPS = ('append', 'overwrite', 'overwrite_last', 'del_last', 'clear', 'flush', 'reopen', 'pickle')
 FLUSHLIKE = ('flush', 'reopen', 'pickle')
 CONFIGS = [('f8', ()), ('i4', (2,)), ('i4', ()), ('f8', (2,))]
 BS = 2
@@ -111,25 +115,22 @@ class Runner:
             st[len(m)] = b
             m.append(b)
             self.initialised = True
-        elif op == 'overwrite':
+        elif op in ('overwrite', 'overwrite_last'):
             b = self.batch()
             if m:
-                i = pos % len(m)
+                i = 0 if op == 'overwrite' else len(m) - 1
                 st[i] = b
                 m[i] = b
             else:
                 self._expect_index_error(lambda: st.__setitem__(len(m) + 1, b), 'store[len+1] = batch')
         elif op == 'del_last':
+            # the list-of-batches spec: only the last batch can be deleted
+            self._expect_index_error(lambda: st.__delitem__(len(m)), 'del store[len]')
+            if len(m) >= 2:
+                self._expect_index_error(lambda: st.__delitem__(0), 'del store[0] (a middle batch)')
             if m:
                 del st[len(m) - 1]
                 m.pop()
-            else:
-                self._expect_index_error(lambda: st.__delitem__(0), 'del store[0] on an empty store')
-        elif op == 'del_mid':
-            if len(m) >= 2:
-                self._expect_index_error(lambda: st.__delitem__(0), 'del store[0] (a middle batch)')
-            else:
-                self._expect_index_error(lambda: st.__delitem__(len(m)), 'del store[len]')
         elif not self.initialised and op in ('clear', 'reopen', 'pickle'):
             pass      # the property is about initialised stores
         elif op == 'clear':
@@ -240,7 +241,9 @@ def kill_run(S, cfg, seq, k, when, hist):
                 if j == len(seq) - 1:
                     ctl['active'] = True
                 r.do(op, j)
-            code = 8
+                if j < len(seq) - 1:
+                    r.check_view()          # as in the counting run (reads create and cache the memmap)
+            code = 0 if when == 'end' else 8
         except BaseException:
             code = 9
         finally:
@@ -253,13 +256,17 @@ def kill_run(S, cfg, seq, k, when, hist):
         a = np.load(path)
     except Exception as e:
         return dict(signature='c06:crash-load', input=inp,
-                    what='killed %s file call %d of `%s`: numpy.load fails: %s: %s' % (when, k, seq[-1], type(e).__name__, str(e)[:90]))
+                    what='%s `%s`: numpy.load fails: %s: %s' % (_kp(k, when), seq[-1], type(e).__name__, str(e)[:90]))
     for h in hist:
         if a.dtype == h.dtype and a.shape == h.shape and np.array_equal(a, h):
             return None
     return dict(signature='c06:crash-content', input=inp,
-                what='killed %s file call %d of `%s`: file holds %d rows %s, not a logical content since the last flush (%s)'
-                     % (when, k, seq[-1], a.shape[0], a.tolist()[:6], [h.shape[0] for h in hist]))
+                what='%s `%s`: file holds %d rows %s, which was never the logical content since the last flush (%s)'
+                     % (_kp(k, when), seq[-1], a.shape[0], a.tolist()[:6], ' | '.join(str(h.tolist()[:6]) for h in hist)))
+
+
+def _kp(k, when):
+    return 'killed right after' if when == 'end' else 'killed %s file call %d of' % (when, k)
 
 
 def sequences(L, ops=OPS):
@@ -274,6 +281,7 @@ def kill_points(info, full):
         if full and k > 0:
             pts.append((k, 'before'))
         pts.append((k, 'after'))
+    pts.append((info['calls'], 'end'))       # the operation completed (covers stores through the memmap, which are not file calls)
     return pts
 
 
@@ -286,14 +294,15 @@ def run(tier='quick', seed=0):
     L6 = () if tier == 'quick' else CONFIGS[1:2]        # thorough: length 6 for one configuration
     fun = dict(name='npystore-op-sequences', bound='sequences <= %d (%s: <= 6) over %s; batch_size %d; %s' % (L, list(L6), '/'.join(OPS), BS, cfgs),
                rule='non-trivial = sequence with an append followed by a delete/clear/overwrite/reopen/pickle', cases=0, nontrivial=0, failures=[])
-    kil = dict(name='npystore-kill-injection', bound='sequences <= %d with a completed flush before the last op; kill before the first and after every '
-               'file call of the last op (%s); %s' % (LK, 'before+after every call' if tier != 'quick' else 'after every call', kcfgs),
-               rule='non-trivial = kill inside an operation that changes the file', cases=0, nontrivial=0, failures=[])
+    kil = dict(name='npystore-kill-injection',
+               bound='sequences <= %d%s with a completed flush before the last op; kill before the first file call, after every file call%s and right '
+                     'after the last op; %s' % (LK, ' starting with append' if tier == 'quick' else '', '' if tier == 'quick' else ' (and before every one)', kcfgs),
+               rule='non-trivial = kill inside or right after an operation that changes the content, after an earlier append', cases=0, nontrivial=0, failures=[])
     seen_f, seen_k = set(), set()
     try:
         for cfg in cfgs:
             for seq in sequences(6 if cfg in L6 else L):
-                want_kill = cfg in kcfgs and len(seq) <= LK and any(o in FLUSHLIKE for o in seq[:-1])
+                want_kill = cfg in kcfgs and len(seq) <= LK and any(o in FLUSHLIKE for o in seq[:-1]) and (tier != 'quick' or seq[0] == 'append')
                 f, info = run_sequence(S, cfg, seq, count_last=want_kill)
                 fun['cases'] += 1
                 if 'append' in seq and any(o in seq[seq.index('append') + 1:] for o in ('del_last', 'clear', 'overwrite', 'reopen', 'pickle')):
@@ -307,7 +316,7 @@ def run(tier='quick', seed=0):
                     for k, when in kill_points(info, tier != 'quick'):
                         kf = kill_run(S, cfg, seq, k, when, info['hist'])
                         kil['cases'] += 1
-                        if seq[-1] not in ('del_mid',) and any(n in ('write', 'truncate') for n in info['names']):
+                        if seq[-1] in ('append', 'overwrite', 'overwrite_last', 'del_last', 'clear') and 'append' in seq[:-1]:
                             kil['nontrivial'] += 1
                         if kf and kf['signature'] not in seen_k:
                             seen_k.add(kf['signature'])
@@ -320,13 +329,13 @@ def run(tier='quick', seed=0):
 def search(cname, crash):
     """replay search for a refuted obligation of contract `cname`: first failing native input"""
     S = store_module()
-    tail = {'truncate': ('del_last', 'clear'), 'clear': ('clear',), '__delitem__': ('del_last', 'del_mid'), 'append': ('append',),
-            '__setitem__': ('append', 'overwrite'), 'flush': ('flush', 'pickle'), 'close': ('reopen',), '_write_header_data': ('flush', 'reopen', 'del_last'),
+    tail = {'truncate': ('del_last', 'clear'), 'clear': ('clear',), '__delitem__': ('del_last',), 'append': ('append',),
+            '__setitem__': ('overwrite', 'overwrite_last', 'append'), '__getitem__': ('overwrite', 'append'), 'memmap': ('overwrite', 'append'), 'flush': ('flush', 'pickle'), 'close': ('reopen',), '_write_header_data': ('flush', 'reopen', 'del_last'),
             '_prepare_header_data': ('append', 'del_last'), '__getstate__': ('pickle',), '_init_from_file_header': ('reopen', 'pickle'),
             'init_from_array': ('append',)}
     meth = cname.split('[')[0].split('.')[-1]
     last = tail.get(meth, ())
-    seqs = sorted(sequences(4 if not crash else 3), key=lambda q: (0 if q[-1] in last else 1, len(q)))
+    seqs = sorted(sequences(4), key=lambda q: (last.index(q[-1]) if q[-1] in last else 9, len(q)))
     n = 0
     try:
         for cfg in (CONFIGS[1], CONFIGS[0]):
@@ -346,7 +355,7 @@ def search(cname, crash):
                             return dict(found=True, input=kf['input'], observed=kf['what'])
     finally:
         shutil.rmtree(_tmpdir(), ignore_errors=True)
-    return dict(found=False, searched='sequences <= %d%s' % (3 if crash else 4, ' x kill at every file call of the last op' if crash else ''), cases=n)
+    return dict(found=False, searched='sequences <= %d%s' % (4, ' x kill at every file call of the last op' if crash else ''), cases=n)
 
 
 def replay_input(inp):
@@ -426,6 +435,24 @@ def sanity():
             f.seek(0)
             got = f.read()
         out.append(('write at an offset replaces exactly those bytes', got == b'abXYef'))
+    finally:
+        shutil.rmtree(d, ignore_errors=True)
+    d = _tmpdir()
+    try:
+        p = os.path.join(d, 'b.npy')
+        with open(p, 'w+b') as f:
+            f.write(b'x' * 16)
+            buffered = os.path.getsize(p) == 0
+            f.seek(0)
+            pushed = os.path.getsize(p) == 16
+            f.write(b'y' * 8)
+            mm = np.memmap(f, dtype='u1', shape=(16,), offset=0)
+            pushed2 = open(p, 'rb').read()[:8] == b'y' * 8
+            mm[8:10] = 122
+            direct = open(p, 'rb').read()[8:10] == b'zz'
+            del mm
+        out.append(('file object: written bytes stay in its buffer until the next seek', bool(buffered and pushed)))
+        out.append(('np.memmap(fileobj) pushes the file object buffer out; a store through it is in the file at once', bool(pushed2 and direct)))
     finally:
         shutil.rmtree(d, ignore_errors=True)
     out.append(('np.prod((r,)+tail) = r*prod(tail); tobytes("C") has rows*prod(tail)*itemsize bytes, rows in order',
